@@ -55,11 +55,168 @@ def obligations(tier):
 
 
 MANIFEST_ENTRY = {
-    'engine': 'crosshair',
+    'engine': 'crosshair+sched',
     'technique': 'bounded symbolic execution (CrossHair/z3), inductive step from a symbolic context-state pre-state assumed to satisfy '
-                 'the invariant; invariant + transition oracle',
+                 'the invariant; invariant + transition oracle; concurrent context changes: recorded templates + SMT over interleavings (stale read before '
+                 'write), gated replay',
     'text': 'All paths of one set_location / SetContextState step (1-2 proposals) from every valid pre-state of two location states '
             'and one patient state with unconstrained version counters.',
     'note': 'Induction over histories is an argument (invariant proved preserved by one step, bounded pre-state of 3 context states); '
             'uuid4 and the clock are stubs; the SetContextState handler is the tutorial role provider.',
 }
+
+
+# ---------------------------------------------------------------- E3: two concurrent context changes for one descriptor
+
+E3_STUBS = ['provider = tests.mockstuff.SomeDevice (70041_MDIB_Final.xml), MockWsDiscovery, no HTTP server; the tutorial '
+            'GenericContextProvider._set_context_state is called directly with prepared proposals',
+            'locks replaced by recording wrappers, table accesses (read / mutate) of the MDIB logged; lock + table granularity']
+
+
+def _e3_obligations(tier):
+    obs = []
+    combos = [('set_context_state', 'set_context_state'), ('set_context_state', 'local_transaction')]
+    if tier == 'thorough':
+        combos += [('set_location', 'set_location'), ('set_context_state', 'set_context_state', 'local_transaction')]
+    for combo in combos:
+        obs.append(Ob('C10.e3.' + '+'.join(combo), 'checks.C10', 'ob_context_race', kind='py', timeout=240, params={'acts': list(combo)},
+                      functions=['tutorial.productandroles.contextprovider.GenericContextProvider._set_context_state',
+                                 'sdc11073.mdib.providermdibxtra.ProviderMdibMethods.set_location',
+                                 'sdc11073.mdib.providermdib.ProviderMdib._transaction_manager'], stubs=E3_STUBS,
+                      bounds=f'{len(combo)} concurrent context changes for ONE context descriptor ({", ".join(combo)}); all interleavings of '
+                             'the recorded lock / table events',
+                      claim='no interleaving lets one change decide on a stale view of the context states (read before, written after '
+                            'another change committed): afterwards at most one state of the descriptor is associated'))
+    return obs
+
+
+_seq_obligations = obligations
+
+
+def obligations(tier):  # noqa: F811
+    return _seq_obligations(tier) + _e3_obligations(tier)
+
+
+def _e3_build():
+    import sdc11073.definitions_sdc  # noqa: F401
+    from sdc11073.provider.providerimpl import provider_components_sync_factory
+    from tests import mockstuff
+    from vf import sched
+    rec = sched.Recorder()
+    dev = mockstuff.SomeDevice.from_mdib_file(mockstuff.MockWsDiscovery('127.0.0.1'), None, '70041_MDIB_Final.xml',
+                                              components=provider_components_sync_factory())
+    sched.instrument_mdib(rec, dev.mdib)
+    return rec, dev
+
+
+def _e3_activity(dev, what, n):
+    import types
+    from sdc11073.location import SdcLocation
+    from sdc11073.xml_types import pm_types
+    import tutorial.productandroles.contextprovider as cp_mod
+    mdib = dev.mdib
+    pmn = mdib.data_model.pm_names
+    if what == 'set_location':
+        return lambda: mdib.xtra.set_location(SdcLocation(fac='f', poc='p', bed=f'bed{n}'))
+    descr = sorted(mdib.descriptions.NODETYPE.get(pmn.PatientContextDescriptor), key=lambda d: d.Handle)[0]
+    if what == 'local_transaction':
+        def local():
+            with mdib.context_state_transaction() as tr:
+                tr.disassociate_all(descr.Handle)
+                st = tr.mk_context_state(descr.Handle, f'local{n}', set_associated=True)
+                st.CoreData = pm_types.PatientDemographicsCoreData()
+        return local
+    prov = cp_mod.GenericContextProvider(mdib, op_target_descr_types=None)
+
+    def handler():
+        st = mdib.data_model.get_state_class_for_descriptor(descr)(descr)
+        st.Handle = descr.Handle           # BICEPS convention: a new state is proposed with Handle == DescriptorHandle
+        st.ContextAssociation = pm_types.ContextAssociation.ASSOCIATED
+        params = types.SimpleNamespace(operation_request=types.SimpleNamespace(argument=[st]),
+                                       operation_instance=types.SimpleNamespace(operation_target_handle=descr.Handle), soap_message=None)
+        prov._set_context_state(params)
+    return handler
+
+
+def _e3_descr_handle(dev, acts):
+    pmn = dev.mdib.data_model.pm_names
+    nodetype = pmn.LocationContextDescriptor if acts[0] == 'set_location' else pmn.PatientContextDescriptor
+    return sorted(dev.mdib.descriptions.NODETYPE.get(nodetype), key=lambda d: d.Handle)[0].Handle
+
+
+def ob_context_race(ctx):
+    import time
+    import z3
+    from vf import sched
+    t0 = time.time()
+    acts = ctx.params['acts']
+    rec, dev = _e3_build()
+    templates = {f'T{i}': rec.record(_e3_activity(dev, a, i)) for i, a in enumerate(acts)}
+    s, order = sched.encode(templates)
+    queries = 1
+    if str(s.check()) != 'sat':
+        return {'verdict': 'error', 'reason': 'base constraints unsatisfiable'}
+    clauses = []
+    for a, ta in templates.items():
+        ra = [i for i, ev in enumerate(ta) if ev == ('tr', 'context_states')]
+        wa = [i for i, ev in enumerate(ta) if ev == ('tw', 'context_states')]
+        for b, tb in templates.items():
+            if a == b:
+                continue
+            wb = [i for i, ev in enumerate(tb) if ev == ('tw', 'context_states')]
+            for r in ra:
+                for w in wa:
+                    if r >= w:
+                        continue
+                    for x in wb:
+                        # a read the context states, b changed them, a wrote its decision afterwards
+                        clauses.append(z3.And(order[(a, r)] < order[(b, x)], order[(b, x)] < order[(a, w)]))
+    if not clauses:
+        return {'verdict': 'error', 'reason': f'templates contain no read-then-write of the context state table: {templates}'}
+    s.add(z3.Or(clauses))
+    sample = {'templates': {k: [f'{a}:{b}' for a, b in v] for k, v in templates.items()}}
+    spurious = 0
+    while True:
+        r = str(s.check())
+        queries += 1
+        if r == 'unsat':
+            return {'verdict': 'confirmed', 'reach': True, 'queries': queries, 'solver_s': round(time.time() - t0, 2),
+                    'engine': 'sched(z3 Int order variables)', 'sample': sample,
+                    'detail': f'{len(clauses)} stale-read patterns over {sum(len(v) for v in templates.values())} events; '
+                              f'{spurious} spurious models refuted by replay'}
+        if r != 'sat':
+            return {'verdict': 'inconclusive', 'reason': 'solver returned ' + r}
+        model = s.model()
+        schedule = sched.schedule_from_model(model, order)
+        label, detail = _e3_replay(acts, schedule)
+        if label != 'ok':
+            return {'verdict': 'counterexample', 'label': label, 'replayed': True, 'queries': queries, 'detail': detail,
+                    'witness': {'acts': acts, 'schedule': [list(x) for x in schedule]}, 'sample': sample,
+                    'engine': 'sched(z3 Int order variables)'}
+        spurious += 1
+        if spurious >= 12 or time.time() - t0 > ctx.timeout * 0.8:
+            return {'verdict': 'inconclusive', 'queries': queries,
+                    'reason': f'{spurious} models did not reproduce on the real code; budget exhausted ({detail})'}
+        s.add(z3.Or([order[k] != model[order[k]] for k in order]))
+
+
+def _e3_replay(acts, schedule):
+    from sdc11073.xml_types import pm_types
+    rec, dev = _e3_build()
+    handle = _e3_descr_handle(dev, acts)
+    activities = {f'T{i}': _e3_activity(dev, a, 10 + i) for i, a in enumerate(acts)}
+    rec.start_replay(schedule)
+    results, errors = rec.run_threads(activities)
+    if rec.failed or errors:
+        return 'ok', f'replay could not follow the schedule ({rec.failed or errors})'
+    states = [s for s in dev.mdib.context_states.descriptor_handle.get(handle, [])]
+    assoc = [s.Handle for s in states if s.ContextAssociation == pm_types.ContextAssociation.ASSOCIATED]
+    if len(assoc) > 1:
+        return 'more-than-one-associated-state-after-concurrent-changes', f'descriptor {handle}: associated states {assoc}'
+    return 'ok', f'associated: {assoc}'
+
+
+def replay(ctx):
+    w = ctx.params['witness']
+    label, detail = _e3_replay(w['acts'], [tuple(x) for x in w['schedule']])
+    return {'verdict': 'counterexample' if label != 'ok' else 'confirmed', 'label': label, 'detail': detail}
